@@ -203,7 +203,13 @@ class P(object):
             tok = self.peek()
             if tok == ("id", "as"):
                 self.next()
-                lhs = ("cast", lhs, self.type_())
+                # the type of a cast is a path (u64, usize, std::primitive::u8): not the general type grammar, which would
+                # swallow a following comparison operator
+                ty = [self.next()[1]]
+                while self.at("::"):
+                    self.next()
+                    ty.append(self.next()[1])
+                lhs = ("cast", lhs, str(ty[-1]))
                 continue
             if tok[0] == "op" and tok[1] in ("..", "..="):
                 if minp > 0:
